@@ -1,7 +1,7 @@
 //! package.json parser
 
 use crate::parser::traits::{ParseError, Parser};
-use crate::parser::types::{PackageInfo, RegistryType};
+use crate::parser::types::{PackageInfo, RegistryType, is_closed_string};
 use tracing::warn;
 
 /// Parser for package.json files
@@ -161,6 +161,11 @@ impl PackageJsonParser {
             };
 
             if value_node.kind() != "string" {
+                continue;
+            }
+
+            // A value whose closing quote has not been typed yet is not a version
+            if !is_closed_string(&content[value_node.byte_range()]) {
                 continue;
             }
 
